@@ -121,7 +121,7 @@ def image_case(src, asan, idx, seed, tier):
     return {"kind": "image", "base": name, "mke2fs": opts, "operators": desc, "case_index": idx}, bad, nrun
 
 
-FC_VARIANTS = ["pad_len_huge", "tag_at_block_end", "add_range_short", "inode_len_huge", "header_cut", "random_tags"]
+FC_VARIANTS = ["pad_len_huge", "tag_at_block_end", "add_range_short", "inode_len_huge", "header_cut", "random_tags", "num_fc_beyond_maxlen", "num_fc_huge"]
 
 
 def fast_commit_case(src, asan, idx, seed, tier):
@@ -137,6 +137,10 @@ def fast_commit_case(src, asan, idx, seed, tier):
     jsb = bytearray(jimg.jsb)
     num_fc = struct.unpack_from(">I", jsb, 0x54)[0] or 256
     seq = r.choice([7, 0xFFFFFFFF, 1])
+    if which == "num_fc_beyond_maxlen":
+        struct.pack_into(">I", jsb, 0x54, jimg.maxlen + 7)
+    elif which == "num_fc_huge":
+        struct.pack_into(">I", jsb, 0x54, 0xFFFFFFF0)
     struct.pack_into(">II", jsb, 0x18, seq, jimg.first)
     inc = struct.unpack_from(">I", jsb, 0x28)[0] | INCOMPAT_FC
     struct.pack_into(">I", jsb, 0x28, inc)
@@ -634,7 +638,7 @@ def run(res, replay=None):
     rows, dbad = dirwalk_corr(src, hexe, mexe, seed, 40 if tier == "quick" else 2000)
     erows, ebad = ea_value_corr(src, mexe, seed, 6 if tier == "quick" else 150)
     rrows, rbad = robust_corr(src, mexe, seed, tier)
-    n_img, n_j, n_a = (100, 48, 32) if tier == "quick" else (4000, 1500, 800)
+    n_img, n_j, n_a = (100, 64, 32) if tier == "quick" else (4000, 1500, 800)
     with concurrent.futures.ThreadPoolExecutor(14) as ex:
         o1 = list(ex.map(lambda i: image_case(src, asan, i, seed, tier), range(n_img)))
         o2 = list(ex.map(lambda i: journal_case(src, asan, i, seed, tier), range(n_j)))
